@@ -129,10 +129,12 @@ def ready_flag(chk: Check, repo: Repo) -> None:
     cfg = CFG(rs.node)
     exc = ExcTable(repo)
 
+    from ..astx import inline_locals
+
     def cm(c, env):
         n = call_name(c)
         if n == "asyncio.sleep":
-            return [Outcome(f"SLEEP({ast.unparse(c.args[0])})", None)]
+            return [Outcome(f"SLEEP({ast.unparse(inline_locals(rs.node, c.args[0]))})", None)]  # locals inlined: the label does not depend on their names
         if n == "self._ready.set":
             return [Outcome("SET_READY", None)]
         if n == "random.random":
@@ -142,11 +144,36 @@ def ready_flag(chk: Check, repo: Repo) -> None:
     am = AbsMachine(cfg, exc, cm, hook_consts(repo, rs))
     paths = Explorer(cfg, repo, am.step, max_steps=200).run(cfg.entry, [], {"self._received_busy_frames": 0, "self._wait_time_ms": 100})
     firsts = {tuple(p.env.get("trace", ())[:2]) for p in paths}
-    chk.ob("resume-after-wait", rs.site(), firsts == {("SLEEP(self._wait_time_ms / 1000 + random_wait_extension)", "SET_READY")}, f"_resume_sending starts with {sorted(firsts)}; required sleep(wait_time_ms/1000 + extension) then ready.set()", key="resume-after-wait")
-    from ..shape import single_assignments
-    d = single_assignments(rs.node)
-    ext = ast.unparse(d["random_wait_extension"]) if "random_wait_extension" in d else "?"
-    chk.ob("extension-non-negative", rs.site(), ext == "random.random() * self._received_busy_frames * BUSY_RANDOM_TIME_FACTOR" and repo.module_const(M, "BUSY_RANDOM_TIME_FACTOR") == 0.05, f"random extension = {ext} (product of non-negative factors; BUSY_RANDOM_TIME_FACTOR = 0.05)", key="extension")
+    sleeps = [c for c in calls(rs.node) if call_name(c) == "asyncio.sleep"]
+    first_arg = inline_locals(rs.node, sleeps[0].args[0]) if sleeps else None
+
+    def factors(e: ast.AST) -> list[ast.AST]:
+        if isinstance(e, ast.BinOp) and isinstance(e.op, ast.Mult):
+            return factors(e.left) + factors(e.right)
+        return [e]
+    base_ok = ext_ok = False
+    ext_txt = "?"
+    if isinstance(first_arg, ast.BinOp) and isinstance(first_arg.op, ast.Add):
+        for a, b in ((first_arg.left, first_arg.right), (first_arg.right, first_arg.left)):
+            if ast.unparse(a) == "self._wait_time_ms / 1000":
+                base_ok = True
+                ext_txt = ast.unparse(b)
+                fs = factors(b)
+                kinds_ = []
+                for f_ in fs:
+                    v = repo.fold(f_, rs.module, rs.cls)
+                    if isinstance(f_, ast.Call) and call_name(f_) == "random.random" and not f_.args:
+                        kinds_.append("random")
+                    elif ast.unparse(f_) == "self._received_busy_frames":
+                        kinds_.append("busy")
+                    elif isinstance(v, (int, float)) and not isinstance(v, bool) and v >= 0:
+                        kinds_.append("const")
+                    else:
+                        kinds_.append("?")
+                ext_ok = "?" not in kinds_ and kinds_.count("random") == 1 and kinds_.count("busy") == 1
+    want_first = f"SLEEP({ast.unparse(first_arg)})" if first_arg is not None else "?"
+    chk.ob("resume-after-wait", rs.site(), base_ok and firsts == {(want_first, "SET_READY")}, f"_resume_sending starts with {sorted(firsts)}; required sleep(wait_time_ms/1000 + extension) then ready.set()", key="resume-after-wait")
+    chk.ob("extension-non-negative", rs.site(), ext_ok and repo.module_const(M, "BUSY_RANDOM_TIME_FACTOR") == 0.05, f"random extension = {ext_txt} (product of non-negative factors: one random.random(), the busy-frame count, constants; BUSY_RANDOM_TIME_FACTOR = 0.05)", key="extension")
     ws = [w for w in attr_writes(repo, "_received_busy_frames", include_mutators=False) if w.func.module.name == M]
     ok = all((w.kind == "assign" and w.func.name == "__init__") or (w.kind == "augassign" and ((w.func.name == "handle_routing_busy" and isinstance(w.stmt.op, ast.Add)) or (w.func.name == "_resume_sending" and isinstance(w.stmt.op, ast.Sub)))) for w in ws)
     chk.ob("busy-counter-writers", rs.site(), ok and len(ws) == 3, f"_received_busy_frames: {[(w.func.name, canon(w.stmt)) for w in ws]}", key="busy-counter")
